@@ -57,7 +57,10 @@ pub(crate) struct Connection {
     conn_closed_tx: Sender<PeerId>,
 
     /// TX channel for sending notifications.
-    notif_tx: PollSender<(PeerId, BytesMut)>,
+    notif_tx: PollSender<(PeerId, u64, BytesMut)>,
+
+    /// Identifier of the notification stream this connection serves.
+    stream: u64,
 
     /// Receiver for asynchronously sent notifications.
     async_rx: Receiver<Vec<u8>>,
@@ -91,7 +94,8 @@ impl Connection {
         outbound: Substream,
         event_handle: NotificationEventHandle,
         conn_closed_tx: Sender<PeerId>,
-        notif_tx: Sender<(PeerId, BytesMut)>,
+        notif_tx: Sender<(PeerId, u64, BytesMut)>,
+        stream: u64,
         async_rx: Receiver<Vec<u8>>,
         sync_rx: Receiver<Vec<u8>>,
     ) -> (Self, oneshot::Sender<()>) {
@@ -109,6 +113,7 @@ impl Connection {
                 conn_closed_tx,
                 next_notification: None,
                 notif_tx: PollSender::new(notif_tx),
+                stream,
             },
             tx,
         )
@@ -153,7 +158,7 @@ impl Connection {
                     notify: NotifyProtocol::No,
                 }) => return self.close_connection(NotifyProtocol::No).await,
                 Some(ConnectionEvent::NotificationReceived { notification }) => {
-                    if let Err(_) = self.notif_tx.send_item((self.peer, notification)) {
+                    if let Err(_) = self.notif_tx.send_item((self.peer, self.stream, notification)) {
                         return self.close_connection(NotifyProtocol::Yes).await;
                     }
                 }
